@@ -66,7 +66,14 @@ class SelAdapter:
         raise NotImplementedError
 
     def row_done(self, td, B: int) -> List[int]:
-        return [int(v) for v in td["done"].reshape(B).tolist()]
+        d = td["done"]
+        if d.numel() == B:
+            return [int(v) for v in d.reshape(B).tolist()]
+        # a quota of shape [B,1]: `[B] >= [B,1]` broadcasts to [B,B]; entry [r][c] compares the counter of row c
+        # with the quota of row r; the decoding loop reduces with `.all()`.  The counters move in lock-step, so
+        # each row of that matrix is uniform.
+        d = d.reshape(B, -1)
+        return [int(bool(d[r].all())) for r in range(B)]
 
     def observe(self, td, r: int, inst: dict) -> Dict[str, str]:
         """canonical strings of the bookkeeping observables of row r (same format as the driver's)"""
@@ -76,7 +83,7 @@ class SelAdapter:
         r = env._get_reward(td, actions)
         return [to_ticks(v, i["unit"]) for v, i in zip(r.flatten().tolist(), insts)]
 
-    def reward_tol(self, inst: dict) -> int:
+    def reward_tol(self, inst: dict, value: int = 0) -> int:
         return 0
 
 
@@ -152,46 +159,87 @@ class FlpAdapter(SelAdapter):
     def n_actions(self, inst):
         return inst["n"]
 
+    # Every FLP instance is held in 2^-60 ticks (`GEN_UNIT`): float32 values of any magnitude used here are
+    # exact multiples.  `exact` = all distances and their sums are exactly representable (tolerance 0).
+    #
+    # Initial `distances` filler handed to reset.  The bundled generator uses sqrt(2)·(max_loc − min_loc); the
+    # value must never matter after the first selection, so instances are built where real distances are
+    # larger than it, equal to it, and smaller than it.
+    FILLERS = ["sqrt2", "sqrt2", 0.0, 2.0 ** -10, 1.0, 1024.0, -1.0, "mixed"]
+
+    @staticmethod
+    def _f32(x: float) -> float:
+        return torch.tensor(x, dtype=torch.float32).item()
+
+    def _filler(self, rng, n):
+        import math
+
+        f = rng.choice(self.FILLERS)
+        if f == "sqrt2":
+            return [self._f32(math.sqrt(2))] * n
+        if f == "mixed":
+            return [self._f32(rng.choice([0.0, 0.125, 1.0, math.sqrt(2), 3.5, 64.0])) for _ in range(n)]
+        return [float(f)] * n
+
     def _inst(self, rng, n, q, kind):
         if kind == "geom":
+            # integral point set, scaled by a power of two (distances stay exact) and shifted out of the unit box
             pts = geom.gen_points(rng, n)
-            D = geom.D_ticks(pts)
-            inst = {"kind": kind, "n": n, "q": q, "D": D, "pts": pts, "unit": EXACT_UNIT}
+            k = rng.choice([1, 1, 4, 4, 2, 8, 0.25])
+            sx, sy = rng.choice([(0, 0), (0, 0), (3, -2), (-7, 5), (100, 100), (-1, -1)])
+            Dg = geom.dist_matrix(pts)
+            per = int(GEN_UNIT * k) // geom.GRID
+            D = [[d * per for d in row] for row in Dg]
+            inst = {"kind": kind, "n": n, "q": q, "D": D, "unit": GEN_UNIT, "exact": True, "scale": k, "shift": (sx, sy),
+                    "locs_f": [[sx + k * x / geom.GRID, sy + k * y / geom.GRID] for (x, y) in pts]}
         elif kind == "matrix":
-            # arbitrary asymmetric integer matrix (units of 2^-6), many ties, non-zero diagonal allowed
+            # arbitrary asymmetric integer matrix, many ties, non-zero diagonal allowed; small and large magnitudes
             hi = rng.choice([2, 4, 9, 64])
-            D = [[rng.randint(0, hi) * (EXACT_UNIT >> 6) for _ in range(n)] for _ in range(n)]
+            sc = rng.choice([2.0 ** -6, 2.0 ** -6, 1.0, 16.0])
+            per = int(GEN_UNIT * sc)
+            D = [[rng.randint(0, hi) * per for _ in range(n)] for _ in range(n)]
             if rng.random() < 0.5:
                 for a in range(n):
                     D[a][a] = 0
-            inst = {"kind": kind, "n": n, "q": q, "D": D, "pts": None, "unit": EXACT_UNIT}
-        else:  # "gen": the repo's generator
+            inst = {"kind": kind, "n": n, "q": q, "D": D, "unit": GEN_UNIT, "exact": True, "scale": sc,
+                    "locs_f": [[0.0, 0.0]] * n}
+        else:  # "gen": the repo's generator, default and non-default boxes / distributions
             from rl4co.envs.graph.flp.generator import FLPGenerator
 
-            g = FLPGenerator(num_loc=n, to_choose=q)
+            variant = rng.choice(["default", "default", "box(-2,3)", "box(10,12)", "box(0,.25)", "normal(.5,.3)", "normal(0,2)"])
+            kw = {"box(-2,3)": dict(min_loc=-2.0, max_loc=3.0), "box(10,12)": dict(min_loc=10.0, max_loc=12.0),
+                  "box(0,.25)": dict(min_loc=0.0, max_loc=0.25),
+                  "normal(.5,.3)": dict(loc_distribution="normal", loc_mean=0.5, loc_std=0.3),
+                  "normal(0,2)": dict(loc_distribution="normal", loc_mean=0.0, loc_std=2.0)}.get(variant, {})
+            g = FLPGenerator(num_loc=n, to_choose=q, **kw)
             torch.manual_seed(rng.randrange(1 << 30))
             td = g(batch_size=[1])
             D = [[to_ticks(v, GEN_UNIT) for v in row] for row in td["orig_distances"][0].tolist()]
-            inst = {"kind": kind, "n": n, "q": int(td["to_choose"][0]), "D": D, "pts": None, "unit": GEN_UNIT,
+            inst = {"kind": f"gen:{variant}", "n": n, "q": int(td["to_choose"][0]), "D": D, "unit": GEN_UNIT, "exact": False,
                     "locs_f": td["locs"][0].tolist(), "D_f": td["orig_distances"][0].tolist(),
                     "d0_f": td["distances"][0].tolist()}
             inst["d0"] = [to_ticks(v, GEN_UNIT) for v in inst["d0_f"]]
             return inst
-        inst["d0"] = [rng.choice([2, 3, 1]) * EXACT_UNIT for _ in range(n)]
+        inst["d0_f"] = self._filler(rng, n)
+        inst["d0"] = [to_ticks(v, GEN_UNIT) for v in inst["d0_f"]]
         return inst
 
-    def gen_batch(self, rng, B, tier, mixed, tiny=False):
+    def gen_batch(self, rng, B, tier, mixed, tiny=False, **kw):
         sizes = ([2, 3, 4, 5] if tier == "quick" else [2, 3, 4, 5, 6, 7, 8]) if tiny else (
             [2, 3, 5, 8] if tier == "quick" else [1, 2, 3, 5, 8, 13, 20])
         n = rng.choice(sizes)
         q0 = rng.choice([1, n, max(1, n // 2), rng.randint(1, n)])
         insts = []
+        # `to_choose` as the generator emits it ([B]) or as its docstring documents it ([B,1])
+        qshape = rng.choice(["[B]", "[B]", "[B]", "[B,1]"])
         for r in range(B):
             q = rng.randint(1, n) if mixed else q0
-            kind = rng.choice(["geom", "matrix", "matrix", "gen"])
+            kind = rng.choice(["geom", "geom", "matrix", "matrix", "gen", "gen"])
             if kind == "gen" and mixed:
                 kind = "matrix"  # the bundled generator cannot produce rows with different quotas
-            insts.append(self._inst(rng, n, q, kind))
+            inst = self._inst(rng, n, q, kind)
+            inst["qshape"] = qshape
+            insts.append(inst)
         if mixed and B > 1 and len({i["q"] for i in insts}) == 1:
             insts[0]["q"] = insts[0]["q"] % n + 1
         return insts
@@ -202,27 +250,29 @@ class FlpAdapter(SelAdapter):
         B = len(insts)
         locs, dm, d0 = [], [], []
         for i in insts:
-            n, u = i["n"], i["unit"]
-            if i["kind"] == "gen":
+            u = i["unit"]
+            if i["kind"].startswith("gen"):
                 locs.append(i["locs_f"]); dm.append(i["D_f"]); d0.append(i["d0_f"])
                 continue
+            exact = [[v / u for v in row] for row in i["D"]]
             if i["kind"] == "geom":
-                lf = geom.to_unit(i["pts"])
-                real = get_distance_matrix(torch.tensor([lf], dtype=torch.float32))[0].tolist()
-                exact = [[v / u for v in row] for row in i["D"]]
+                # the distance matrix is computed from the coordinates by the repo's own routine, as the generator does
+                real = get_distance_matrix(torch.tensor([i["locs_f"]], dtype=torch.float32))[0].tolist()
                 if real != exact:  # coordinate→distance glue not exact on this instance: hand over the matrix
                     i["glue_inexact"] = True
                     real = exact
-                locs.append(lf); dm.append(real)
+                dm.append(real)
             else:
-                locs.append([[0.0, 0.0]] * n); dm.append([[v / u for v in row] for row in i["D"]])
-            d0.append([v / u for v in i["d0"]])
+                dm.append(exact)
+            locs.append(i["locs_f"])
+            d0.append(i["d0_f"])
+        q = torch.tensor([i["q"] for i in insts], dtype=torch.long)
         return TensorDict({
             "locs": torch.tensor(locs, dtype=torch.float32),
             "orig_distances": torch.tensor(dm, dtype=torch.float32),
             "distances": torch.tensor(d0, dtype=torch.float32),
             "chosen": torch.zeros(B, insts[0]["n"], dtype=torch.bool),
-            "to_choose": torch.tensor([i["q"] for i in insts], dtype=torch.long),  # shape [B] as the generator's
+            "to_choose": q.unsqueeze(-1) if insts[0].get("qshape") == "[B,1]" else q,
         }, batch_size=[B])
 
     def line(self, inst, actions):
@@ -234,9 +284,9 @@ class FlpAdapter(SelAdapter):
         return {"chosen": bits(td["chosen"][r].tolist()),
                 "dist": ",".join(str(to_ticks(v, inst["unit"])) for v in td["distances"][r].tolist())}
 
-    def reward_tol(self, inst):
-        # float32 sum of n terms each < 2: n ulps of the result magnitude (exact stream: 0)
-        return 0 if inst["unit"] == EXACT_UNIT else inst["n"] * (inst["unit"] >> 21)
+    def reward_tol(self, inst, value=0):
+        # float32 sum of n terms: n ulps of the result magnitude (exact stream: 0)
+        return 0 if inst.get("exact") else inst["n"] * (max(abs(value), inst["unit"]) >> 21)
 
     # the spec-side observable that corresponds to each bookkeeping observable
     spec_of = {"dist": "near"}
@@ -261,15 +311,6 @@ class McpAdapter(SelAdapter):
     def n_actions(self, inst):
         return inst["ns"]
 
-    def row_done(self, td, B):
-        d = td["done"]
-        if d.numel() == B:
-            return [int(v) for v in d.reshape(B).tolist()]
-        # `[B] >= [B,1]` broadcasts to [B,B]: entry [r][c] compares the counter of row c with the quota of
-        # row r; the decoding loop reduces with `.all()`.  The counters move in lock-step, so a row is uniform.
-        d = d.reshape(B, -1)
-        return [int(bool(d[r].all())) for r in range(B)]
-
     def _inst(self, rng, ns, ni, ms, q, kind):
         mem = []
         for j in range(ns):
@@ -278,43 +319,82 @@ class McpAdapter(SelAdapter):
                 row = [rng.choice([0, 0, rng.randint(1, ni)]) for _ in range(ms)]
                 if rng.random() < 0.15:
                     row = [0] * ms
+            elif kind == "extreme":
+                # set sizes at the extremes: empty, singleton, completely filled row, the set of ALL items
+                shape = rng.choice(["empty", "single", "full-row", "all-items", "last-item"])
+                if shape == "empty":
+                    row = [0] * ms
+                elif shape == "single":
+                    row = [0] * ms
+                    row[rng.randrange(ms)] = rng.randint(1, ni)
+                elif shape == "last-item":
+                    row = [ni] + [0] * (ms - 1)
+                elif shape == "all-items" and ms >= ni:
+                    row = list(range(1, ni + 1)) + [0] * (ms - ni)
+                    rng.shuffle(row)
+                else:
+                    row = [rng.randint(1, ni) for _ in range(ms)] if ms > ni else rng.sample(range(1, ni + 1), ms)
             else:
                 size = rng.randint(1, ms)
                 items = rng.sample(range(1, ni + 1), min(size, ni))
                 row = items + [0] * (ms - len(items))
             mem.append(row)
-        if kind == "scattered" and ns >= 2 and rng.random() < 0.3:
+        if kind in ("scattered", "extreme") and ns >= 2 and rng.random() < 0.3:
             mem[1] = list(mem[0])  # duplicate set
-        w = [rng.choice([1, 1, 2, 3, 5, 10, 0 if kind == "scattered" else 7]) for _ in range(ni)]
-        return {"kind": kind, "ns": ns, "ni": ni, "ms": ms, "q": q, "mem": mem, "w": w, "unit": 1}
+        unit = 1
+        if kind == "extreme":
+            # weights at the extremes: 0, 1, large (sums stay below 2^24, exact in float32), quarters
+            wk = rng.choice(["zero-one", "large", "quarters", "all-zero", "all-equal"])
+            if wk == "zero-one":
+                w = [rng.choice([0, 1]) for _ in range(ni)]
+            elif wk == "large":
+                w = [rng.choice([1, 2 ** 18, 2 ** 19, 10 ** 5, 0]) for _ in range(ni)]
+            elif wk == "quarters":
+                unit = 4
+                w = [rng.randint(0, 41) for _ in range(ni)]  # multiples of 0.25
+            elif wk == "all-zero":
+                w = [0] * ni
+            else:
+                w = [rng.choice([1, 10, 1000])] * ni
+        else:
+            w = [rng.choice([1, 1, 2, 3, 5, 10, 0 if kind == "scattered" else 7]) for _ in range(ni)]
+        return {"kind": kind, "ns": ns, "ni": ni, "ms": ms, "q": q, "mem": mem, "w": w, "unit": unit}
 
     def _gen_inst(self, rng, ns, ni, ms, q):
         from rl4co.envs.graph.mcp.generator import MCPGenerator
 
-        g = MCPGenerator(num_items=ni, num_sets=ns, min_size=ms, max_size=ms, n_sets_to_choose=q)
+        # default-like and non-default weight ranges; min_size = max_size keeps the bundled generator away from
+        # its shape error (DESIGN §8, C18): sizes 1 .. all items
+        wr = rng.choice([(1, 10), (1, 10), (5, 5), (100, 1000), (0, 1)])
+        g = MCPGenerator(num_items=ni, num_sets=ns, min_size=ms, max_size=ms, n_sets_to_choose=q,
+                         min_weight=wr[0], max_weight=wr[1])
         torch.manual_seed(rng.randrange(1 << 30))
         td = g(batch_size=[1])
         mem = [[int(v) for v in row] for row in td["membership"][0].tolist()]
         w = [int(v) for v in td["weights"][0].tolist()]
-        return {"kind": "gen", "ns": ns, "ni": ni, "ms": len(mem[0]), "q": int(td["n_sets_to_choose"][0, 0]),
+        return {"kind": f"gen:w{wr[0]}-{wr[1]}", "ns": ns, "ni": ni, "ms": len(mem[0]), "q": int(td["n_sets_to_choose"][0, 0]),
                 "mem": mem, "w": w, "unit": 1}
 
-    def gen_batch(self, rng, B, tier, mixed, tiny=False):
+    def gen_batch(self, rng, B, tier, mixed, tiny=False, **kw):
         sizes = ([2, 3, 4, 5] if tier == "quick" else [2, 3, 4, 5, 6, 7, 8]) if tiny else (
             [2, 3, 5, 8] if tier == "quick" else [1, 2, 3, 5, 8, 13, 20])
         ns = rng.choice(sizes)
-        ni = rng.choice([3, 5, 9] if tier == "quick" or tiny else [1, 3, 5, 9, 20])
-        ms = rng.choice([1, 2, 3, 4])
+        ni = rng.choice([1, 3, 5, 9] if tier == "quick" or tiny else [1, 3, 5, 9, 20])
+        ms = rng.choice([1, 2, 3, 4, ni, ni + 2])
         q0 = rng.choice([1, ns, max(1, ns // 2), rng.randint(1, ns)])
+        # quota as the bundled generator emits it (float [B,1]) or as hand-supplied data may hold it (long [B])
+        qshape = rng.choice(["[B,1]f", "[B,1]f", "[B,1]f", "[B]l"])
         insts = []
         for r in range(B):
             q = rng.randint(1, ns) if mixed else q0
-            kind = rng.choice(["random", "scattered", "scattered", "gen"])
+            kind = rng.choice(["random", "scattered", "scattered", "extreme", "extreme", "gen"])
             if kind == "gen" and not mixed:
-                # min_size = max_size keeps the bundled generator away from its shape error (DESIGN §8, C18)
                 try:
                     insts.append(self._gen_inst(rng, ns, ni, ms, q))
-                    continue
+                    if insts[-1]["ms"] == ms:
+                        continue
+                    insts.pop()
+                    kind = "random"
                 except Exception:
                     kind = "random"
             elif kind == "gen":
@@ -322,15 +402,20 @@ class McpAdapter(SelAdapter):
             insts.append(self._inst(rng, ns, ni, ms, q, kind))
         if mixed and B > 1 and len({i["q"] for i in insts}) == 1:
             insts[0]["q"] = insts[0]["q"] % ns + 1
+        for i in insts:
+            i["qshape"] = qshape
         return insts
 
     def to_td(self, env, insts):
         B = len(insts)
+        if insts[0].get("qshape") == "[B]l":
+            q = torch.tensor([i["q"] for i in insts], dtype=torch.long)
+        else:
+            q = torch.tensor([[float(i["q"])] for i in insts], dtype=torch.float32)
         return TensorDict({
             "membership": torch.tensor([i["mem"] for i in insts], dtype=torch.float32),
-            "weights": torch.tensor([i["w"] for i in insts], dtype=torch.float32),
-            # shape [B,1], float — as the bundled generator emits it
-            "n_sets_to_choose": torch.tensor([[float(i["q"])] for i in insts], dtype=torch.float32),
+            "weights": torch.tensor([[v / i["unit"] for v in i["w"]] for i in insts], dtype=torch.float32),
+            "n_sets_to_choose": q,
         }, batch_size=[B])
 
     def line(self, inst, actions):
@@ -340,7 +425,7 @@ class McpAdapter(SelAdapter):
 
     def observe(self, td, r, inst):
         return {"chosen": bits(td["chosen"][r].tolist()),
-                "weights": ",".join(str(to_ticks(v, 1)) for v in td["weights"][r].tolist()),
+                "weights": ",".join(str(to_ticks(v, inst["unit"])) for v in td["weights"][r].tolist()),
                 "mem": ",".join(str(to_ticks(v, 1)) for v in td["membership"][r].flatten().tolist())}
 
     spec_of = {"weights": "unc", "mem": "rem"}
@@ -407,7 +492,7 @@ class DppAdapter(SelAdapter):
             self._envs[key] = env
         return self._envs[key]
 
-    def gen_batch(self, rng, B, tier, mixed, tiny=False):
+    def gen_batch(self, rng, B, tier, mixed, tiny=False, unmasked_ok=False, **kw):
         size = rng.choice([2, 3] if tiny else ([2, 3, 4, 5] if tier == "quick" else [2, 3, 4, 5, 7, 10]))
         N = size * size
         # MDPP generator: 1 cell for the legacy single probe + up to pmax-1 probes + up to kmax-1 keep-outs are
@@ -421,7 +506,12 @@ class DppAdapter(SelAdapter):
         proto = {"size": size, "n": N, "q": q, "kmax": kmax, "pmax": pmax, "multi": self.multi, "unit": 1}
         env = self.env_for([proto])
         for r in range(B):
-            kind = rng.choice(["gen", "gen", "tight", "loose"])
+            kind = rng.choice(["gen", "gen", "tight", "loose", "nokeepout"])
+            # "pre-masked": the instance mask already excludes the probing port(s), as the bundled generators emit
+            # it.  Not pre-masked: `action_mask` = complement of the keep-out cells only, the port(s) are given in
+            # `probe` alone (hand-supplied / dataset instance).  MDPPEnv must re-mask them itself; DPPEnv does not
+            # (known finding `dpp:probe-offered:not-premasked`), so for DPP they are used where the caller asks.
+            premasked = not ((self.multi or unmasked_ok) and rng.random() < 0.5)
             if kind == "gen":
                 torch.manual_seed(rng.randrange(1 << 30))
                 td = env.generator(batch_size=[1])
@@ -430,18 +520,23 @@ class DppAdapter(SelAdapter):
                     probe = [j for j, b in enumerate(td["probe"][0].tolist()) if b]
                 else:
                     probe = [int(td["probe"][0, 0])]
+                if not premasked and rng.random() < 0.5:
+                    kind = "gen-unmasked"  # a generator instance stored with its keep-out layout only
+                    for pcell in probe:
+                        avail[pcell] = 1
             else:
                 cells = list(range(N))
                 rng.shuffle(cells)
                 npb = rng.randint(1, pmax) if self.multi else 1
                 probe = sorted(cells[:npb])
                 rest = cells[npb:]
-                nfree = q if kind == "tight" else rng.randint(q, len(rest))
+                nfree = q if kind == "tight" else (len(rest) if kind == "nokeepout" else rng.randint(q, len(rest)))
                 free = set(rest[:nfree])
                 avail = [1 if j in free else 0 for j in range(N)]
-                if self.multi and rng.random() < 0.5:
-                    # MDPPEnv re-masks the probes itself: an instance mask that still offers a probe cell
-                    avail[probe[0]] = 1
+                if not premasked:
+                    kind += "-unmasked"
+                    for pcell in probe:
+                        avail[pcell] = 1
             insts.append(dict(proto, kind=kind, avail=avail, probe=probe))
         return insts
 
@@ -560,12 +655,16 @@ def check_selection(ctx, ad: SelAdapter, quick=160, thorough=2500):
     while n_rows < total:
         B = ctx.rng.choice([1, 2, 3, 4, 6])
         mixed = pick_mixed(ctx, ad) and B > 1
-        insts = ad.gen_batch(ctx.rng, B, ctx.tier, mixed)
+        insts = ad.gen_batch(ctx.rng, B, ctx.tier, mixed, unmasked_ok=True)
         env = ad.env_for(insts)
         tr = run_sel(ad, env, insts, chooser(ctx.rng))
         replies = ask_many(ctx, [ad.line(insts[r], tr.actions[r]) for r in range(B)])
         bk = batch_kind(ad, insts)
         ctx.count(f"{ad.name}.batches.{bk}")
+        probe_explained = [False] * B
+        if isinstance(ad, DppAdapter):
+            for r in range(B):
+                probe_explained[r] = check_probe_offered(ctx, ad, insts[r], tr, r)
         for (r, t) in tr.empty:
             ctx.violation(f"{ad.name}:dead-end", "a row is offered no action while the batch is still running",
                           {"inst": insts[r], "actions": tr.actions[r], "step": t})
@@ -579,6 +678,13 @@ def check_selection(ctx, ad: SelAdapter, quick=160, thorough=2500):
             ctx.count(f"{ad.name}.quota={'n' if inst['q'] == ad.n_actions(inst) else ('1' if inst['q'] == 1 else 'mid')}")
             if inst.get("glue_inexact"):
                 ctx.count(f"{ad.name}.geom-glue-inexact")
+            if "qshape" in inst:
+                ctx.count(f"{ad.name}.quota-tensor={inst['qshape']}")
+            if "d0" in inst:
+                dmax = max(max(row) for row in inst["D"])
+                ctx.count(f"{ad.name}.reset-filler " + ("below" if min(inst["d0"]) < dmax else "not below") + " the largest distance")
+                if dmax > (inst["unit"] * 3) // 2:
+                    ctx.count(f"{ad.name}.some distance > sqrt(2) (outside the unit box)")
             fd = first_done(tr.done[r])
             # (a) finishes exactly when the quota is reached
             if not tr.empty and fd != inst["q"]:
@@ -601,6 +707,11 @@ def check_selection(ctx, ad: SelAdapter, quick=160, thorough=2500):
                 if parse_fields(own).get("feas") != "1":
                     ctx.violation(f"{ad.name}:infeasible-episode", "selection up to the row's own finish is infeasible (Lean Spec)",
                                   {"inst": inst, "actions": acts[:fd]})
+            elif f.get("feas") != "1" and not tr.empty and probe_explained[r] and \
+                    parse_fields(ctx.driver.ask(ad.line(dict(inst, probe=[]), acts))).get("feas") == "1":
+                # single-port DPP on a not pre-masked instance: the only defect of this episode is a decap on the
+                # offered probing port, already reported under the known key by `check_probe_offered`
+                ctx.count(f"{ad.name}.episodes-with-decap-on-unmasked-probe")
             elif f.get("feas") != "1" and not tr.empty:
                 ctx.violation(f"{ad.name}:infeasible-episode",
                               "mask-confined episode of the real env is not a feasible selection by the Lean Spec "
@@ -631,6 +742,25 @@ def check_selection(ctx, ad: SelAdapter, quick=160, thorough=2500):
     if isinstance(ad, DppAdapter):
         check_dpp_generator_contract(ctx, ad)
         check_dpp_ctor(ctx, ad)
+
+
+def check_probe_offered(ctx, ad: "DppAdapter", inst: dict, tr: Trace, r: int) -> bool:
+    """A probing port must never be offered (C08).  Returns True iff an offer was seen and it is exactly the
+    known finding: single-port DPPEnv, instance mask not pre-masked (it offers the port), nothing else."""
+    for t, m in enumerate(tr.masks[r]):
+        offered = [p for p in inst["probe"] if m[p] == "1"]
+        if not offered:
+            continue
+        known = (not ad.multi) and all(inst["avail"][p] == 1 for p in offered)
+        acts = tr.actions[r]
+        ctx.violation(f"{ad.name}:probe-offered:not-premasked" if known else f"{ad.name}:probe-offered",
+                      ("DPPEnv._reset copies the instance's action_mask and never clears td['probe']: on an instance whose "
+                       "mask encodes the keep-out layout only, the probing port is offered" if known else
+                       "a probing port is offered by the mask") + f" (after {t} placements)",
+                      {"inst": inst, "actions_so_far": acts[:t], "mask": m, "probe": inst["probe"],
+                       "decap_placed_on_probe": [a for a in acts if a in inst["probe"]]})
+        return known
+    return False
 
 
 def check_dpp_generator_contract(ctx, ad: "DppAdapter"):
@@ -762,7 +892,7 @@ def check_reward(ctx, ad: SelAdapter, quick=160, thorough=2500):
             if "reward" not in f:
                 ctx.disagreement(f"{ad.name}: driver error", {"reply": replies[r]})
                 continue
-            tol = ad.reward_tol(inst)
+            tol = ad.reward_tol(inst, real[r])
             ctx.case((ad.name, repr(inst), tuple(tr.actions[r])), nontrivial=real[r] != 0)
             ctx.count(f"{ad.name}.kind={inst['kind']}")
             ctx.count(f"{ad.name}.n={ad.n_actions(inst)}")
@@ -843,11 +973,11 @@ def check_batch_independence(ctx, ad: SelAdapter, quick=40, thorough=500):
                     rew_s = ad.reward_ticks(env, tr1.td, torch.tensor(tr1.actions, dtype=torch.long), [inst])[0]
                 except ValueError:
                     continue
-                if abs(rew_s - rew_b[r]) > ad.reward_tol(inst):
+                if abs(rew_s - rew_b[r]) > ad.reward_tol(inst, rew_s):
                     # known only if it is exactly the mixed-quota padding AND the batched reward is what the
                     # per-instance model computes for everything the row selected (nothing else leaked in)
                     fr = parse_fields(replies[r])
-                    explained = "reward" in fr and abs(int(fr["reward"]) - rew_b[r]) <= ad.reward_tol(inst)
+                    explained = "reward" in fr and abs(int(fr["reward"]) - rew_b[r]) <= ad.reward_tol(inst, rew_b[r])
                     key = (f"{ad.name}:mixed-quota:reward-depends-on-batch"
                            if (padded and is_mixed_quota_padding(insts, r, tr) and explained)
                            else f"{ad.name}:batch-dependence:reward")
@@ -952,7 +1082,7 @@ def check_completeness(ctx, ad: SelAdapter, quick=16, thorough=150):
                 continue
             best_real = max(rew)
             best_spec = max(ad.reward_sign * v for v in spec_obj.values())
-            tol = ad.reward_tol(inst)
+            tol = ad.reward_tol(inst, max(abs(v) for v in rew))
             if abs(best_real - best_spec) > tol:
                 ctx.violation(f"{ad.name}:optimum-differs",
                               "best reward reachable through the mask differs from the brute-force optimum (Lean Spec)",
@@ -974,11 +1104,17 @@ def check_completeness(ctx, ad: SelAdapter, quick=16, thorough=150):
 NOTE = {
     "flp": "FLPEnv modelled per instance over integer ticks (Rl4co/Env/Flp.lean); coordinates→distance arithmetic and "
            "float32 rounding of the summed reward are outside the model (exact-stream instances make them exact; "
-           "generator instances are passed as exact dyadics and the summed reward is compared within n ulp)",
+           "generator instances are passed as exact dyadics and the summed reward is compared within n ulp); instances "
+           "include scaled / shifted integral point sets, matrices up to 1024, generator boxes [-2,3], [10,12], [0,.25], "
+           "normal locations, reset fillers sqrt2 / 0 / tiny / huge / negative / per-location, `to_choose` of shape [B] and [B,1]",
     "mcp": "MCPEnv modelled per instance (Rl4co/Env/Mcp.lean) with integer weights and integer item ids; the float "
-           "encoding of ids and the scatter-add into an (n_items+1)-wide buffer are glue validated by the correspondence",
+           "encoding of ids and the scatter-add into an (n_items+1)-wide buffer are glue validated by the correspondence; "
+           "instances include empty / singleton / all-item sets, weights 0, 2^19, quarters, generator weight ranges 5..5, "
+           "100..1000, 0..1, quota tensors float [B,1] and long [B]",
     "dpp": "DPPEnv/MDPPEnv `_reset`, `_step` and masks modelled per instance (Rl4co/Env/Dpp.lean); the environments are "
-           "constructed with `_load_dpp_data` stubbed (no download); the impedance simulator / reward is not modelled",
+           "constructed with `_load_dpp_data` stubbed (no download); the impedance simulator / reward is not modelled; "
+           "instances: bundled generators, hand-built layouts (tight / loose / no keep-out), pre-masked and NOT pre-masked "
+           "(action_mask = complement of the keep-out cells only, ports in `probe` alone; for single-port DPP only in C08)",
 }
 NOTE["mdpp"] = NOTE["dpp"]
 NO_THM = "no theorem yet: correspondence + spec oracle only"
@@ -1008,7 +1144,11 @@ def _thms(ns: str, prop: str) -> List[Theorem]:
                 t += [Theorem(P + "weights_eq", "proved", "`weights[x]` = 0 if x is covered by a selected set else its weight (0-padding, 1-based ids)"),
                       Theorem(P + "membership_eq", "proved", "`membership` = original rows with the rows of selected sets zeroed")]
             return t
-        return [Theorem(P + "quota", "proved", "complete episode: exactly `max_decaps` distinct cells, each offered by the instance, none a probing port"),
+        return [Theorem(P + "quota", "partial", "complete episode: exactly `max_decaps` distinct cells, each offered by the instance, none a probing "
+                                                "port — for MDPP, and for DPP on instances whose mask excludes the port (ProbeMasked)"),
+                Theorem(P + "mdpp_quota", "proved", "MDPP: the same with no hypothesis on the instance mask"),
+                Theorem(P + "dpp_probe_free_counterexample", "proved",
+                        "¬ (single-port DPP never uses the probing port on ANY instance mask): DPPEnv._reset does not clear it — known finding"),
                 Theorem(P + "done_iff_quota", "proved", "done ⇔ at least `max_decaps` placements"),
                 Theorem(P + "feasible_of_run", "proved", "complete episode is Spec-feasible"),
                 Theorem(P + "mask_eq_history", "proved", "mask = reset mask minus the cells used so far"),
